@@ -61,10 +61,28 @@ def verdict(nfaces, axes, table_json, labels=None):
         return False, type(e).__name__
 
 
-def assert_table(nfaces, axes, table_json, what, labels=None):
+def assert_table(nfaces, axes, table_json, what, labels=None, elsewhere_first=False):
     """labels: the values of the dataset's face coordinate (default 0..n-1); a face 'exists' iff it is one of them."""
     faces = set(range(nfaces)) if labels is None else set(int(x) for x in labels)
-    want = L.reciprocal(gen.table_to_model(table_json), faces, set(axes))
+    model_table = gen.table_to_model(table_json)
+    want = L.reciprocal(model_table, faces, set(axes))
+    if elsewhere_first:
+        # the same table offered first with a dataset that has every face it names (where it may well be acceptable): the
+        # verdict for *this* dataset must not depend on that
+        named = set(faces)
+        for f, per in model_table.items():
+            named.add(int(f))
+            for sides in per.values():
+                for l in sides:
+                    if l is not None and isinstance(l[0], int):
+                        named.add(int(l[0]))
+        big = sorted(x for x in named if x >= 0)
+        if set(big) != faces and len(big) <= 12:
+            want_big = L.reciprocal(model_table, set(big), set(axes))
+            got_big, exc_big = verdict(len(big), axes, table_json, big)
+            if got_big != want_big:
+                raise Violation(f"{what} (on a dataset with all named faces): " + ("non-reciprocal table accepted" if got_big else "reciprocal table refused"),
+                                axes=list(axes), table=table_json, exception=exc_big, face_labels=big)
     got, exc = verdict(nfaces, axes, table_json, labels)
     if got != want:
         raise Violation(
@@ -201,7 +219,7 @@ def strategy_impl(draw, tier):
     # "relabel" says whether the table is written with those labels (consistent) or still with 0..n-1
     labels = draw(st.sampled_from([None, None, "one-based", "sparse"]))
     return {"nfaces": nfaces, "axes": axes, "table": table, "edits": edits, "special": special, "face_order": list(order),
-            "reverse_axes": draw(st.booleans()), "labels": labels, "relabel": draw(st.booleans())}
+            "reverse_axes": draw(st.booleans()), "labels": labels, "relabel": draw(st.booleans()), "elsewhere_first": draw(st.booleans())}
 
 
 def strategy(tier):
@@ -227,7 +245,7 @@ def check(case, ctx):
         table = {str(m.get(int(f), int(f))): {a: [None if l is None else [m.get(int(l[0]), int(l[0])), l[1], l[2]] for l in sides]
                                                 for a, sides in per.items()} for f, per in table.items()}
     if special == "none":
-        want = assert_table(nfaces, axes, table, "random table", labels=labels)
+        want = assert_table(nfaces, axes, table, "random table", labels=labels, elsewhere_first=bool(case.get("elsewhere_first")))
     else:
         try:
             if special == "two-facedims":
